@@ -334,6 +334,11 @@ class Norm:
                 elif ev == "deliver":
                     out.append({"e": "deliver", "i": i, "s": s, "ch": self.ch(e["sid"]), "len": e["len"],
                                 "h": e["h"] & 0x7FFFFFFF})
+                elif ev == "sackfx":
+                    out.append({"e": "sackfx", "i": i, "s": s, "removed": [_rel(t, self.itsn[s]) for t in e["removed"]],
+                                "acked": [_rel(t, self.itsn[s]) for t in e["gap_acked"]]})
+                elif ev == "advfx":
+                    out.append({"e": "advfx", "i": i, "s": s, "removed": [_rel(t, self.itsn[s]) for t in e["removed"]]})
                 elif ev in ("t1", "t3", "tlp", "advance"):
                     out.append({"e": "timer", "i": i, "s": s, "what": ev})
                 elif ev in ("open", "close"):
